@@ -14,6 +14,7 @@ KEY_SYNCED = 'F-C08-parity-write-error-recorded-synced'
 KEY_LAST = 'F-C08-last-writer-errors-lost'
 KEY_MONO = 'F-C08-mono-writer-errors-lost'
 EIO, ENOSPC = 5, 28
+SHORT = -512          # a fault 'errno' below zero is a short count of -errno bytes (shim: short=<n>)
 
 
 def parity_sub(level):
@@ -88,7 +89,7 @@ class Runner:
                     lst = ref.files.get((d, sub), [])
                     targets.append(('rd', lst[j - 1] if j <= len(lst) else None, d, errno))
                 else:
-                    specs.append('pwrite:%s:%d:%d' % (parity_sub(who), j, errno))
+                    specs.append('pwrite:%s:%d:%s' % (parity_sub(who), j, ('short=%d' % -errno) if errno < 0 else str(errno)))
                     # a stripe skipped because of a read error is not written: the j-th pwrite is the j-th of the others
                     lst = [p for p in ref.written.get(who, []) if p not in rd_hit]
                     targets.append(('wr', lst[j - 1] if j <= len(lst) else None, who, errno))
@@ -170,7 +171,10 @@ class Runner:
                     T = len(ref.enabled)
                     what = 'sync --test-io-cache %d: parity write error (errno %d) on level %d at stripe %d (iteration %s of %d): exit %d, stripe recorded %s, stale parity %s' % (
                         n, errno, who, pos, iteration, T, r.rc, 'synced+healthy' if v['healthy'] else 'not healthy', pos in stale)
-                    if n == 1 and r.rc == 0:
+                    if errno < 0 and r.rc == 0:
+                        key = None
+                        what = 'a SHORT parity write (%d bytes of the block) is accepted as complete: ' % -errno + what
+                    elif n == 1 and r.rc == 0:
                         # F-C08-mono-writer-errors-lost was repaired in /repo (55c30f5): exit 0 in single-thread mode is a regression
                         key = None
                         what = 'REGRESSION of F-C08-mono-writer-errors-lost: ' + what
@@ -228,7 +232,7 @@ class Runner:
             if kind == 'rd':
                 rq += [str(pos), str(int(who[1:]) - 1), 'I' if errno == EIO else 'F']
             else:
-                wfl.append((pos, who, 'E' if errno == EIO else 'N'))
+                wfl.append((pos, who, 'E' if errno == EIO else ('S%d' % -errno if errno < 0 else 'N')))
         n = case['cache']
         # every failing write has its own writer schedule (one thread per level): search the admissible lags of each.  A lag
         # beyond the number of remaining iterations means 'collected by the end-of-run flush': lags up to the number of enabled
@@ -278,6 +282,8 @@ class Runner:
                 for l in range(a.np):
                     now_b = a.parity_bytes(l)
                     for pos, e in enumerate(mp[l]):
+                        if e[0] == 'J0':
+                            continue        # half written after a short count: neither the old nor the new block
                         if e[0][0] == 'J' and now_b[pos * a.bs:(pos + 1) * a.bs] != par_before[l][pos * a.bs:(pos + 1) * a.bs]:
                             errs.append('level %d pos %d: the model says the block was not (successfully) written, but its bytes changed' % (l, pos))
                 if errs:
@@ -315,6 +321,57 @@ class Runner:
         return out
 
     # ---------------------------------------------------------------------------------------------- scrub
+    def prehash_case(self, case):
+        """`sync -h`: the pre-hash phase reads every block of the new files before the sync phase; the j-th pread of a new file is
+        made to fail with EIO there.  Expected: failing status and diagnostic, the sync phase is skipped, nothing is recorded
+        synced; a later plain sync completes.  case = dict(cache, file=(disk, sub), j)"""
+        scn, chk, ref = self.scn, self.chk, self.ref
+        if len(chk.violations) > 8:
+            return
+        a = scn.build()
+        rep = dict(case); rep.update(scn.describe())
+        try:
+            d, sub = case['file']
+            log = os.path.join(a.root, 'fault.log')
+            r = a.run('sync', '-h', '--test-io-cache', str(case['cache']),
+                      shim_env={'VSHIM_FAIL': 'pread:%s:%d:%d' % (os.path.join(a.root, d, sub), case['j'], EIO), 'VSHIM_LOG': log})
+            self.stats['runs'] += 1
+            txt = open(log, errors='replace').read() if os.path.exists(log) else ''
+            if 'INJECTED-ERROR' not in txt:
+                self.stats['not_injected'] += 1
+                return
+            self.stats['read_faults'] += 1
+            written = [l for l in txt.split('\n') if ' pwrite ' in l and '.parity' in l and 'INJECTED' not in l]
+            rep.update({'rc': r.rc, 'summary': r.summary(), 'parity_writes': len(written)})
+            try:
+                st2 = a.content()
+                view = stripe_view(a, st2)
+                healthy_new = [p for p in ref.enabled if view.get(p, {}).get('healthy')]
+            except Exception:
+                st2, healthy_new = None, []
+            if r.rc == 0:
+                chk.violation('prehash_exit', 'sync -h: EIO on pread %d of %s:%s during the pre-hash phase but exit status 0 (io_cache %d)' % (case['j'], d, sub, case['cache']), rep)
+            elif not (r.tag('error:') or 'rror' in r.err):
+                chk.violation('prehash_diag', 'sync -h: EIO during the pre-hash phase, failing status but no diagnostic', rep)
+            elif written or healthy_new:
+                chk.violation('prehash_synced', 'sync -h: EIO during the pre-hash phase but the sync phase ran (%d parity writes) / stripes %s recorded synced' % (len(written), healthy_new), rep)
+            else:
+                self.stats['satisfied'] += 1
+            if self.model:
+                out = run_lines(self.model, ['hashp %d %s' % (case['j'], ' '.join(['O'] * (case['j'] - 1) + ['I']))], shards=1)[0].split()
+                if out[:1] == ['ok'] and ((out[1] == '1') != (r.rc != 0) or (out[2] == '1') != (not written)):
+                    chk.violation('drift_prehash', 'MODEL-DRIFT: pre-hash model says failing=%s skip=%s, the binary: rc %d, %d parity writes' % (out[1], out[2], r.rc, len(written)), rep, no_input=True)
+                elif out[:1] == ['ok']:
+                    self.stats['model_compared'] += 1
+            rs = a.run('sync')
+            st3 = a.content()
+            perr, _ = a.check_parity(st3)
+            left = all_synced(a, st3)
+            if rs.rc != 0 or perr or left:
+                chk.violation('prehash_resume', 'after a failed `sync -h`, `sync` (rc %d) leaves stripes %s unsynced, parity errors %s' % (rs.rc, left, perr[:2]), rep)
+        finally:
+            drop(a)
+
     def scrub_combo_case(self, case):
         """an EIO on one disk AND a non-I/O error (the file of another disk removed since the sync) in the same stripe of one scrub:
         the stripe must still be marked bad (scrub.c:594-613: silent/io error wins over the generic error).
@@ -517,7 +574,7 @@ def sync_cases(ref, scn, caches, quick, rng):
         for lev in range(scn.np):
             n = len(ref.written.get(lev, []))
             for j in range(1, n + 1):
-                for errno in (EIO, ENOSPC):
+                for errno in (EIO, ENOSPC, SHORT):
                     cases.append({'cache': cache, 'faults': [('wr', lev, j, errno)]})
     # error limit and several faults per run
     if files:
@@ -609,7 +666,7 @@ def main(tier, replay=None):
                             fl.append(('rd', f, chk.rng.randint(1, len(R.ref.files[f])), EIO))
                     else:
                         lev = chk.rng.randrange(np_)
-                        fl.append(('wr', lev, chk.rng.randint(1, max(1, len(R.ref.written.get(lev, [1])))), chk.rng.choice([EIO, ENOSPC])))
+                        fl.append(('wr', lev, chk.rng.randint(1, max(1, len(R.ref.written.get(lev, [1])))), chk.rng.choice([EIO, ENOSPC, SHORT])))
                 # one fault per call: the shim applies the last matching specification
                 seen, fl2 = set(), []
                 for f in fl:
@@ -634,6 +691,15 @@ def main(tier, replay=None):
                     allf.append({'cache': cache, 'file': (d, sub), 'limit': 3})
             pmap(R.scrub_allfail_case, allf)
             pmap(R.scrub_combo_case, combo)
+        # ---- read faults during the pre-hash phase of `sync -h`: every pread index of every file with blocks to sync
+        ph = []
+        for cache in ([caches[0], caches[-1]] if quick else caches):
+            for (d, sub), lst in sorted(R.ref.files.items()):
+                for j in range(1, len(lst) + 1):
+                    ph.append({'cache': cache, 'file': (d, sub), 'j': j})
+        if gi == 0 or not quick:
+            pmap(R.prehash_case, ph)
+            sc = sc + ph
             scc = scc + combo + allf
         if gi == 0:
             # replay of the Coq witnesses, one-shot (no preliminary interrupted sync), judged by the same oracle
